@@ -406,6 +406,7 @@ def main(ck):
     kinds, hist_used, threads_used = {}, {}, {}
     lines_slice, keep_slice = [], []
     lines_lat, keep_lat = [], []
+    lines_edges, keep_edges = [], []
     max_threads = numba.config.NUMBA_NUM_THREADS
     for mi in range(n_mesh):
         m = meshgen.gen_mesh(rng, max_ops=rng.choice([4, 8, 14]), partial=rng.random() < 0.3)
@@ -448,6 +449,15 @@ def main(ck):
                 ck.fail("selection_raises", case, {"kind": sel["kind"]}, detail=repr(ex))
                 continue
             numba.set_num_threads(max_threads)
+            # the edge table the subset carries over from the source, before anything is derived on it
+            try:
+                if "edge_node_connectivity" in r._ds and "subgrid_edge_indices" in r._ds and "subgrid_face_indices" in r._ds:
+                    lines_edges.append(sx([src.table, g.edge_node_connectivity.values.tolist(), g.face_edge_connectivity.values.tolist(),
+                                           [int(x) for x in r._ds["subgrid_face_indices"].values]]))
+                    keep_edges.append((case, r._ds["edge_node_connectivity"].values.tolist(),
+                                       [int(x) for x in r._ds["subgrid_edge_indices"].values]))
+            except Exception:
+                pass
             bad = check_result(src, sel, r)
             if bad:
                 ck.fail(bad, case, {"kind": sel["kind"], "history": len(hist) > 0})
@@ -490,6 +500,15 @@ def main(ck):
             mcanon = [[(node_idx[x] if x != FILL else FILL) for x in row] for row in new_table]
             if mcanon != canon:
                 ck.corr_failures.append({"case": case["selection"], "impl": canon, "model": mcanon})
+        mod = ck.run_model("c09_edges", lines_edges) if lines_edges else []
+        for (case, carried, rec_e), mo in zip(keep_edges, mod):
+            if isinstance(mo, list) and mo and mo[0] == "ERR":
+                ck.corr_failures.append({"case": case["selection"], "model": mo})
+                continue
+            if [list(p) for p in mo[0]] != [list(p) for p in carried] or list(mo[1]) != rec_e:
+                ck.corr_failures.append({"case": case["selection"], "level": "carried_edge_table",
+                                         "impl": [carried[:8], rec_e[:8]], "model": [mo[0][:8], mo[1][:8]]})
+        ck.extra["carried_edge_tables_compared"] = len(keep_edges)
         mod = ck.run_model("c09_lat", lines_lat)
         for (case, faces), mo in zip(keep_lat, mod):
             if sorted(mo) != faces:
